@@ -140,7 +140,7 @@ def idiom_terms(v, spelling):
 
 
 class C02(QProp):
-    """Theorems (Props/C02.lean): `Compound::factor`, `+`, `-` and the `to` step accept two non-empty proportional compounds iff the specification's base dimensions agree, whatever the spelling, otherwise `illegalOperation` / `illegalCast`; a plain number adopts the unit in either order. Correspondence: pairs of random and respelled unit expressions, cancelling idioms, plus a sweep built from the human reference table only (`1 name^p to base-SI`)."""
+    """Theorems (Props/C02.lean): `Compound::factor`, `+`, `-` and the `to` step accept two non-empty proportional compounds iff the specification's base dimensions agree, whatever the spelling, otherwise `illegalOperation` / `illegalCast`; a plain number adopts the unit in either order. Correspondence: pairs of random and respelled unit expressions, cancelling idioms, plus a sweep built from the human reference table only (`1 name^p to base-SI`). End to end (Props/QuantityQuery.lean): `C02_query` — the rendered TEXT of `a + b`, `a - b`, `a to u` through lexer, parser and evaluator succeeds iff the specification's dimensions agree."""
     id = "C02"
     module = "Anything.Props.C02"
     extra_modules = ["Anything.Props.QuantityQuery"]
@@ -183,7 +183,7 @@ class C02(QProp):
 
 
 class C03(QProp):
-    """Theorems (Props/C03.lean): a conversion multiplies by scale(source)/scale(target) with the specification's exact scale (non-zero by a table fact re-checked every run): round trips, via an intermediate, linearity, prefix = power of ten, powers, products. Correspondence: every unit word as source and target, random commensurable pairs, prefixed temperature scales."""
+    """Theorems (Props/C03.lean): a conversion multiplies by scale(source)/scale(target) with the specification's exact scale (non-zero by a table fact re-checked every run): round trips, via an intermediate, linearity, prefix = power of ten, powers, products. Correspondence: every unit word as source and target, random commensurable pairs, prefixed temperature scales. End to end: `C03_query` — the text `x u1 to u2` answers x·scale u1/scale u2 in u2."""
     id = "C03"
     module = "Anything.Props.C03"
     extra_modules = ["Anything.Props.QuantityQuery"]
@@ -229,7 +229,7 @@ class C03(QProp):
 
 
 class C04(QProp):
-    """Theorems (Props/C04.lean): `Compound::mul` with every iteration of `reconstruct` preserves base dimensions and SI value; `*`, `/`, `^` refine Spec.SI.qmul/qdiv/qpow; zero divisor is an error; x^0 is the dimensionless one; a power leaving the i32 range is an error. Correspondence: expression trees over quantities, SI value and dimensions compared whatever unit is displayed."""
+    """Theorems (Props/C04.lean): `Compound::mul` with every iteration of `reconstruct` preserves base dimensions and SI value; `*`, `/`, `^` refine Spec.SI.qmul/qdiv/qpow; zero divisor is an error; x^0 is the dimensionless one; a power leaving the i32 range is an error. Correspondence: expression trees over quantities, SI value and dimensions compared whatever unit is displayed. End to end: `C04_query` — products, quotients and literal integer powers written as text have the SI value and dimensions of Spec.SI.qmul/qdiv/qpow."""
     id = "C04"
     module = "Anything.Props.C04"
     extra_modules = ["Anything.Props.QuantityQuery"]
@@ -353,7 +353,7 @@ class _OffsetLaws:
 
 
 class C13(_OffsetLaws, QProp):
-    """Theorems (Props/C13.lean): `+ - * /` on proportional quantities refine the specification's SI operations, hence commutativity, associativity, distributivity, a-a = 0, a/a = 1 for the evaluator's results; products stay proportional; every shipped fact is in scope (kernel check over the regenerated facts table). Offset scales excluded (recorded finding). Correspondence: both sides of every law on literals and shipped facts, all pairs of units in both orders, a reference-driven pair sweep."""
+    """Theorems (Props/C13.lean): `+ - * /` on proportional quantities refine the specification's SI operations, hence commutativity, associativity, distributivity, a-a = 0, a/a = 1 for the evaluator's results; products stay proportional; every shipped fact is in scope (kernel check over the regenerated facts table). Offset scales excluded (recorded finding). Correspondence: both sides of every law on literals and shipped facts, all pairs of units in both orders, a reference-driven pair sweep. End to end: `C13_query` — the SI reading of any in-scope quantity expression written as text is the specification's denotation, hence the laws hold for whole queries."""
     id = "C13"
     module = "Anything.Props.C13"
     extra_modules = ["Anything.Props.QuantityQuery"]
